@@ -8,7 +8,49 @@ import (
 	"bufio"
 	"fmt"
 	"runtime"
+	"sync/atomic"
+	"time"
 )
+
+// ChaosPerMille > 0 switches on "chaos" for code that runs OUTSIDE a controlled run (free-running stress on the real scheduler): every
+// shimmed atomic / lock / wait-group operation is then preceded and followed, with this probability, by a yield, a short spin or a sleep
+// of up to 200µs. This widens exactly the windows between adjacent synchronisation statements (a state CAS and the cancel after it, an
+// Add(+1) and its undo, an unlock and the statement after it), which the real scheduler otherwise opens for nanoseconds only.
+// The delays are bounded and change no result: any behaviour seen with chaos is a behaviour of the code.
+var ChaosPerMille int32
+
+// PostOp (controlled runs): the shimmed atomic operations yield once more AFTER the operation, so that the plain code between an atomic
+// access and the next one (a read of a field the access just won, a copy into a table it just published) can interleave with the other
+// threads. Set by the harness before Run for a share of the runs; no trace event, the models are unaffected.
+var PostOp bool
+
+var chaosCtr uint64
+
+// Chaos is called by the shims before and after an operation when no controlled run is active.
+func Chaos() {
+	p := atomic.LoadInt32(&ChaosPerMille)
+	if p == 0 {
+		return
+	}
+	x := atomic.AddUint64(&chaosCtr, 0x9E3779B97F4A7C15)
+	x ^= x >> 30
+	x *= 0xBF58476D1CE4E5B9
+	x ^= x >> 27
+	x *= 0x94D049BB133111EB
+	x ^= x >> 31
+	if int32(x%1000) >= p {
+		return
+	}
+	switch (x >> 12) % 4 {
+	case 0:
+		runtime.Gosched()
+	case 1:
+		for t := time.Now(); time.Since(t) < time.Duration(1+(x>>16)%20)*time.Microsecond; {
+		}
+	default:
+		time.Sleep(time.Duration(1+(x>>16)%200) * time.Microsecond)
+	}
+}
 
 type thread struct {
 	id      int
